@@ -225,3 +225,75 @@ theorem C04_logon_gap_detected (s : Sess) (m : InMsg) (n : Int) (hst : s.st = .l
   refine ⟨s', hkept, ?_⟩
   have : fixMsgInCore s m = logonFixMsgIn s m := by simp [fixMsgInCore, hst]
   rw [this, logonFixMsgIn_high s s' m n _ hk hl, hkept.target, hkept.cfg]; rfl
+
+/-! ### non-vacuity (evaluated by the interpreter at build time; String functions do not reduce in the kernel) -/
+
+-- the hypotheses of C04_request are satisfiable: an acceptor after connect + Logon(1) expects 2; message 5 arrives
+#guard (demoUp {}).st.name == "InSession" && (demoUp {}).store.target == 2
+#guard (checkBeginString (demoUp {}) (demoIn {} "D" 5)).isNone && (checkCompID (demoUp {}) (demoIn {} "D" 5)).isNone
+        && (checkSendingTime (demoUp {}) (demoIn {} "D" 5)).isNone && gotIs (getInt (demoIn {} "D" 5) 34) 5
+        && kindOf (demoIn {} "D" 5) == "D"
+-- … and the event is what C04_request_step says: FIX.4.2 infinity = 0; chunk 2 → 16 = 3, cur = 3; FIX.4.1 infinity = 999999
+#guard (step (demoUp {}) (.incomingMsg (some (demoIn {} "D" 5)))).2.1
+        == [.saved 2 "2" true, .wire { kind := "2", seq := 2, f := [(7, "2"), (16, "0")] }, .armPeer 36000]
+#guard (step (demoUp { chunk := 2 }) (.incomingMsg (some (demoIn { chunk := 2 } "D" 5)))).2.1
+        == [.saved 2 "2" true, .wire { kind := "2", seq := 2, f := [(7, "2"), (16, "3")] }, .armPeer 36000]
+#guard (step (demoUp { bs := 1 }) (.incomingMsg (some (demoIn { bs := 1 } "D" 5)))).2.1
+        == [.saved 2 "2" true, .wire { kind := "2", seq := 2, f := [(7, "2"), (16, "999999")] }, .armPeer 36000]
+#guard (match (step (demoUp { chunk := 2 }) (.incomingMsg (some (demoIn { chunk := 2 } "D" 5)))).1.st with
+        | .resend st c f => st.map (·.1) == [5] && c == 3 && f == 4 | _ => false)
+-- recovery: a second early message is kept and nothing is sent (C04_kept, C04_no_duplicate) — also with a TestRequest pending
+#guard obsOf (demoUp {}) [.incomingMsg (some (demoIn {} "D" 5)), .incomingMsg (some (demoIn {} "D" 7))]
+        == [.saved 2 "2" true, .wire { kind := "2", seq := 2, f := [(7, "2"), (16, "0")] }, .armPeer 36000, .armPeer 36000]
+#guard (match (runEvs (demoUp {}) [.incomingMsg (some (demoIn {} "D" 5)), .timeout .peerTimeout,
+                                   .incomingMsg (some (demoIn {} "D" 7))]).st with
+        | .resend st c f => st.map (·.1) == [7, 5] && c == 0 && f == 4 | _ => false)
+#guard (obsOf (demoUp {}) [.incomingMsg (some (demoIn {} "D" 5)), .timeout .peerTimeout,
+                           .incomingMsg (some (demoIn {} "D" 7))]).count (.wire { kind := "2", seq := 2, f := [(7, "2"), (16, "0")] }) == 1
+-- the missing 2, 3, 4 arrive: 2 … 6 are delivered in order, back to normal operation expecting 7 (C04_drain_contiguous)
+#guard (obsOf (demoUp {}) [.incomingMsg (some (demoIn {} "D" 5)), .incomingMsg (some (demoIn {} "D" 6)),
+          .incomingMsg (some (demoIn {} "D" 2)), .incomingMsg (some (demoIn {} "D" 3)), .incomingMsg (some (demoIn {} "D" 4))]).filter isCallback
+        == [.fromApp "2" 2, .fromApp "3" 3, .fromApp "4" 4, .fromApp "5" 5, .fromApp "6" 6]
+#guard (runEvs (demoUp {}) [.incomingMsg (some (demoIn {} "D" 5)), .incomingMsg (some (demoIn {} "D" 6)),
+          .incomingMsg (some (demoIn {} "D" 2)), .incomingMsg (some (demoIn {} "D" 3)), .incomingMsg (some (demoIn {} "D" 4))]).st.name == "InSession"
+#guard (runEvs (demoUp {}) [.incomingMsg (some (demoIn {} "D" 5)), .incomingMsg (some (demoIn {} "D" 6)),
+          .incomingMsg (some (demoIn {} "D" 2)), .incomingMsg (some (demoIn {} "D" 3)), .incomingMsg (some (demoIn {} "D" 4))]).store.target == 7
+-- the gap on the Logon itself: Logon(4) on a fresh acceptor expecting 1 → request [1, 0] queued behind the Logon reply, empty stash
+#guard (runEvs (initSess {} 1 1) [.connect, .incomingMsg (some (demoIn {} "A" 4 [(98, "0"), (108, "30")]))]).toSend
+        == [{ kind := "2", seq := 2, f := [(7, "1"), (16, "0")] }]
+#guard (match (runEvs (initSess {} 1 1) [.connect, .incomingMsg (some (demoIn {} "A" 4 [(98, "0"), (108, "30")]))]).st with
+        | .resend st c f => st.isEmpty && c == 0 && f == 3 | _ => false)
+
+/-! ### two corner cases of the chunk logic that the theorems above make visible (model = code, resend_state.go)
+
+  `C04_no_duplicate` allows the next-chunk request when `cur ≤ target`, not only when `cur < target`, and puts no
+  upper bound on `target`:
+  * chunk 1, recovery with the chunk `[5,5]` outstanding (`cur = target = 5`): a too-high GapFill (34=9) is stashed and the
+    branch `gapFillFlag && currentResendRangeEnd == NextTargetMsgSeqNum` re-sends the request `7=5 16=5` although the
+    expected number has not moved;
+  * chunk 2, `cur = 3`, `fin = 10`: an in-sequence GapFill 2 → 15 moves the expected number beyond the gap end and the
+    branch `cur < target` requests `7=15 16=0` although nothing is missing. -/
+#guard (fixMsgInCore { cfg := { chunk := 1 }, st := .resend [] 5 10, store := { sender := 2, target := 5 }, out := true, inboxOpen := true, hb := 30 }
+          (demoIn { chunk := 1 } "4" 9 [(123, "Y"), (36, "12")])).1.log
+        == [.wire { kind := "2", seq := 2, f := [(7, "5"), (16, "5")] }, .saved 2 "2" true]
+#guard (fixMsgInCore { cfg := { chunk := 2 }, st := .resend [] 3 10, store := { sender := 2, target := 2 }, out := true, inboxOpen := true, hb := 30 }
+          (demoIn { chunk := 2 } "4" 2 [(123, "Y"), (36, "15"), (43, "Y")])).1.log
+        == [.wire { kind := "2", seq := 2, f := [(7, "15"), (16, "0")] }, .saved 2 "2" true, .setT 15, .fromAdmin "4" "2"]
+
+/-!
+Clause checklist (properties.jsonl C04 → theorems)
+* a message above the expected number T → exactly one ResendRequest, BeginSeqNo T         : C04_request, C04_request_sent, C04_request_step
+* EndSeqNo infinity (0 / 999999 before FIX.4.2), or T+chunk-1 when the chunk is smaller     : C04_request (`chunkEnd`), guards for 4.2 / 4.1 / chunk 2
+* keeps the early message                                                                  : C04_request (stash = [(n, m)]), C04_kept, C04_kept_quiet, C04_kept_mem/_others
+* while recovering no further ResendRequest other than next-chunk ones, begin = expected   : C04_no_duplicate (shape), C04_no_duplicate_all_requested (cur = 0: none),
+                                                                                             C04_no_duplicate_budget (≤ 1), C04_no_duplicate_step (whole event)
+* … also with a TestRequest pending (every state with `curResend = some …`)               : same theorems (hypothesis `curResend s = some …` covers `pending(resend)`); C20_cancel_resend
+* once the missing numbers arrived every kept message next in sequence is delivered, in order : C04_drain, C04_drain_spec (`Drained`), C01_inorder_exactly_once for order/uniqueness
+* … without being requested again                                                          : C04_drain_no_request, C04_no_duplicate
+* peer skipped nothing → normal operation, expecting one past the highest received          : C04_drain_contiguous
+* gaps detected on the Logon itself                                                        : C04_logon_gap, C04_logon_gap_detected
+* quantifier: every gap size / arrival order / chunk size / end marker                      : all theorems are ∀ cfg (in `s.cfg`), ∀ s, ∀ m; one-step theorems from arbitrary states
+* not proved as a whole-history invariant (stated as hypotheses of C04_kept / satisfied by C04_request's result):
+  `target ≤ fin` and `cur = 0 ∨ target < cur` while recovering; see the two corner cases above for what happens outside them
+* not modelled: store write failures; EnableNextExpectedMsgSeqNum
+-/
